@@ -2,10 +2,12 @@
 """benign_matrix.py <dir-with-k/patch.diff> ...: applies each behaviour-preserving refactoring to /repo, runs EVERY claimed check (quick),
 and records the exit codes.  A 1 (VIOLATION) is a false alarm."""
 import glob, json, os, re, subprocess, sys
-os.chdir('/verif')
+os.chdir(os.path.dirname(os.path.dirname(os.path.abspath(__file__))))
+REPO = os.environ.get('MATRIX_REPO', '/repo')
+ENV = dict(os.environ, VERIF_REPO=REPO)
 sys.path.insert(0, 'vc'); sys.path.insert(0, 'vc/units')
 import registry
-assert subprocess.run('git -C /repo status --porcelain', shell=True, capture_output=True, text=True).stdout.strip() == '', '/repo not clean'
+assert subprocess.run('git -C %s status --porcelain' % REPO, shell=True, capture_output=True, text=True).stdout.strip() == '', REPO + ' not clean'
 out = {}
 try:
     out = json.load(open('seeded/BENIGN.json'))
@@ -14,20 +16,20 @@ except Exception:
 for base in sys.argv[1:]:
     for d in sorted(glob.glob(base + '/*/patch.diff')):
         name = os.path.basename(base.rstrip('/')) + '/' + os.path.basename(os.path.dirname(d))
-        p = subprocess.run(['git', '-C', '/repo', 'apply', d], capture_output=True, text=True)
+        p = subprocess.run(['git', '-C', REPO, 'apply', os.path.abspath(d)], capture_output=True, text=True)
         if p.returncode != 0:
             out[name] = dict(error='patch does not apply'); continue
         res = {}
         try:
             for prop in sorted(registry.PROPERTIES):
-                r = subprocess.run(['./check', prop], capture_output=True, text=True, timeout=1500)
+                r = subprocess.run(['./check', prop], capture_output=True, text=True, timeout=1500, env=ENV)
                 res[prop] = r.returncode
                 if r.returncode == 1:
                     res[prop + '_detail'] = re.findall(r'failed obligation (\S+):', r.stdout)[:4]
                 if r.returncode == 2:
                     res[prop + '_detail'] = [u[:160] for u in re.findall(r'^UNDECIDED .*?reason=(.*)$', r.stdout, re.M)[:2]]
         finally:
-            subprocess.run('git -C /repo checkout -- . && git -C /repo clean -fdq crates', shell=True)
+            subprocess.run('git -C %s checkout -- . && git -C %s clean -fdq crates' % (REPO, REPO), shell=True)
         out[name] = res
         print(name, {k: v for k, v in res.items() if not k.endswith('_detail')}, {k: v for k, v in res.items() if k.endswith('_detail')})
         json.dump(out, open('seeded/BENIGN.json', 'w'), indent=1, sort_keys=True)
